@@ -14,9 +14,10 @@ pub fn special_lengths(maxlen: usize) -> Vec<usize> {
 
 /// the whole grid; `exact` = C12 placement (exact-size heap operands, offsets collapse)
 pub fn grid(ctx: &Ctx, st: &Stats, exact: bool) {
-    let quick = ctx.quick() || is_checked_build();
-    let maxlen: usize = if quick { 200 } else { 320 };
-    let doffs: Vec<usize> = if exact { vec![0] } else if quick { vec![0, 1, 63] } else { (0..64).collect() };
+    // the release build runs the full grid in both tiers (about 2 s); the debug-assertions build a reduced one in the quick tier
+    let quick = is_checked_build() && ctx.quick();
+    let maxlen: usize = if quick { 256 } else { 320 };
+    let doffs: Vec<usize> = if exact { vec![0] } else if quick { vec![0, 1, 2, 7, 8, 15, 16, 31, 32, 33, 63] } else { (0..64).collect() };
     let soffs: Vec<usize> = if exact { vec![0] } else { vec![0, 1, 7, 8, 31, 33, 63] };
     let kinds = kinds();
     let small_scalars = [0u8, 1, 2, 0x1D, 0x80, 0xFF];
@@ -190,10 +191,10 @@ pub fn run(ctx: &Ctx) -> i32 {
     st.sample(c.json());
     let c = Case { op: Op::Mul, kind: vk::SSSE3, len: 320, doff: 0, soff: 0, dcontent: "rot:17".into(), scontent: "00".into(), scalar: 0x80 };
     st.sample(c.json());
-    let ml = if ctx.quick() { 200 } else { 320 };
+    let ml = 320;
     finish(ctx, &st, Finish {
         level: "exploration",
-        rule: format!("every compiled kernel (avx512, avx2, ssse3, portable, each called individually through the hook) and the public dispatcher x 4 operations x every length 0..={} x destination offsets {} x source offsets {{0,1,7,8,31,33,63}} x contents x scalars {{0,1,2,0x1D,0x80,0xFF}} (grid A); all 256 scalars on lengths 0..=70,127..=130,191..=193,255..=257,320 (grid B); 52 rotations x 256 scalars so that every lane sees every byte value with every scalar (grid C); one-hot at every position for len<=130 (grid D); packed bit vectors of every length (all padding-bit counts) with patterns 00/ff/alt/alt3/lcg (grid E). Oracle: element-wise reference field arithmetic, canaries around the destination, source unchanged. Repeated in the debug-assertions build (documented scalar preconditions of the dispatchers respected there). distinct_nontrivial = (operation, kernel, length) units.", ml, if ctx.quick() { "{0,1,63}" } else { "0..63" }),
+        rule: format!("every compiled kernel (avx512, avx2, ssse3, portable, each called individually through the hook) and the public dispatcher x 4 operations x every length 0..={} x destination offsets {} x source offsets {{0,1,7,8,31,33,63}} x contents x scalars {{0,1,2,0x1D,0x80,0xFF}} (grid A); all 256 scalars on lengths 0..=70,127..=130,191..=193,255..=257,320 (grid B); 52 rotations x 256 scalars so that every lane sees every byte value with every scalar (grid C); one-hot at every position for len<=130 (grid D); packed bit vectors of every length (all padding-bit counts) with patterns 00/ff/alt/alt3/lcg (grid E). Oracle: element-wise reference field arithmetic, canaries around the destination, source unchanged. Repeated in the debug-assertions build (documented scalar preconditions of the dispatchers respected there). distinct_nontrivial = (operation, kernel, length) units.", ml, "0..63 (debug-assertions build in the quick tier: 11 offsets, lengths <= 256)"),
         exhaustive: false,
         assumptions: vec!["NEON kernels cannot execute on this x86 host".into(), "lengths above 320 are not enumerated".into()],
         extra: Map::new(),
